@@ -1116,7 +1116,16 @@ func (p *copyProp) runInBubble(rc *RunCtx, sc *Scenario, cp *CopyParams, g *Grap
 		if faults == nil && cp.NFaults > 0 && len(cp.FaultPicks) >= 2 {
 			// a callback fault: (callback, node) drawn over the graph
 			cbs := []string{"PreCopy", "PostCopy", "OnCopySkipped"}
-			f := FaultSpec{Store: "cb", Op: cbs[cp.FaultPicks[0]%3], Node: int(cp.FaultPicks[1] % uint64(len(g.Nodes))), Occur: 1, Kind: "before"}
+			if cp.MountFrom {
+				cbs = append(cbs, "OnMounted", "MountFrom", "MountFrom")
+			}
+			if cp.MapRoot == "child" {
+				cbs = append(cbs, "MapRoot")
+			}
+			f := FaultSpec{Store: "cb", Op: cbs[cp.FaultPicks[0]%uint64(len(cbs))], Node: int(cp.FaultPicks[1] % uint64(len(g.Nodes))), Occur: 1, Kind: "before"}
+			if f.Op == "MapRoot" {
+				f.Node = cp.Root
+			}
 			faults = []FaultSpec{f}
 			cp.Faults = faults
 			sc.Params, _ = json.Marshal(cp)
